@@ -266,7 +266,14 @@ gen_plan(const ProfileCfg &pc, uint64_t run_seed)
                         op.jobs.push_back(mkjob(!op.nocheck));
                 }
                 for (auto &j : op.jobs) {
-                        total_bytes += spec_src_bytes(j);
+                        // the constant-time (SAFE_LOOKUP) C implementations are 10-50x slower per byte than everything else:
+                        // weigh their bytes so that one run stays well below a second
+                        const uint64_t w = j.cipher == IMB_CIPHER_DES3 ? 24
+                                           : (j.cipher == IMB_CIPHER_DES || j.cipher == IMB_CIPHER_DOCSIS_DES ||
+                                              j.cipher == IMB_CIPHER_KASUMI_UEA1_BITLEN || j.hash == IMB_AUTH_KASUMI_UIA1)
+                                                     ? 8
+                                                     : 1;
+                        total_bytes += w * spec_src_bytes(j);
                         total_jobs++;
                 }
                 p.ops.push_back(op);
